@@ -2629,8 +2629,10 @@ def register_fields_and_surfaces(reg):
 
                 o = OrientedPoint._with(position=Vector(1, 2, 3), parentOrientation=Orientation.fromEuler(*pe), yaw=y, pitch=p, roll=r)
                 want = Orientation.fromEuler(*pe) * Orientation.fromEuler(y, p, r)
-                if not o.orientation.approxEq(want):
-                    return f"OrientedPoint with parentOrientation {pe}, yaw/pitch/roll {(y, p, r)}: orientation {o.orientation}, expected {want}"
+                if prop == "orientation":
+                    if not o.orientation.approxEq(want):
+                        return f"OrientedPoint with parentOrientation {pe}, yaw/pitch/roll {(y, p, r)}: orientation {o.orientation}, expected {want}"
+                    continue
                 # heading must be the yaw of SOME Euler triple of the global orientation (the canonical one, or -- for a global
                 # parent -- the given local angles themselves, which need not be in canonical range)
                 if not any(Orientation.fromEuler(o.heading, pp, rr).approxEq(want, 1e-9) for pp, rr in ((want.pitch, want.roll), (p, r))):
